@@ -48,19 +48,64 @@ CURATED = [
 def tokens_of(text):
     return text.split()
 
+SYMBOLIC = {".cfa", "$rax", "rbx", "^"}
+HARD_OPS = {"*", "/", "%"}
+
+def is_hard(p):
+    """Programs whose reference comparison needs the equivalence of two 64-bit multiplier/divider
+    circuits (out of reach for SAT): `/` or `%` with a divisor that is not a power-of-two literal,
+    `*` of two non-literal operands.  They run with every symbolic source narrowed to 12 bits."""
+    st = []  # abstract stack: "lit:<v>" or "sym"
+    for t in tokens_of(p):
+        code = TOK.get(t, "T::Bad")
+        if t in ("+", "-", "*", "/", "%", "@"):
+            if len(st) < 2:
+                return False
+            r = st.pop(); l = st.pop()
+            if t in ("/", "%"):
+                pow2 = r.startswith("lit:") and int(r[4:]) > 0 and (int(r[4:]) & (int(r[4:]) - 1)) == 0
+                if not pow2 and (l == "sym" or r == "sym"):
+                    return True
+            if t == "*" and l == "sym" and r == "sym":
+                return True
+            st.append("sym" if "sym" in (l, r) else "lit:0")
+        elif t == "^":
+            if not st:
+                return False
+            st.pop(); st.append("sym")
+        elif code.startswith("T::Lit("):
+            st.append("lit:" + code[7:-1])
+        elif t in (".cfa", "$rax", "rbx"):
+            st.append("sym")
+        else:
+            return False
+    return False
+
 def emit(progs, tier, tag, out, counter):
+    easy = [p for p in progs if not is_hard(p)]
+    hard = [p for p in progs if is_hard(p)]
+    _emit(easy, tier, tag, out, counter, False)
+    _emit(hard, tier, tag + "_narrow", out, counter, True)
+
+def _emit(progs, tier, tag, out, counter, narrow):
     for gi in range(0, len(progs), PER):
         grp = progs[gi:gi + PER]
         hn = f"c06_{tier}_{tag}_{gi // PER:03d}"
         out.append("/// F: breakpad_symbols::sym_file::walker::eval_cfi_expr")
         out.append("/// I: callee registers rax/rbx (each u64 or unknown), CFA (u64 or unavailable), two readable memory cells at symbolic addresses with symbolic contents; programs: " + " | ".join(repr(p) for p in grp).replace("\\", "\\\\")[:600])
-        out.append("/// B: the listed program texts (token sequence fixed, all numeric state symbolic)")
+        out.append("/// B: the listed program texts (token sequence fixed, all numeric state symbolic)" + ("; A: these programs divide by something other than a power-of-two literal, or multiply two non-literal operands: registers, CFA and memory contents are below 4096 here (equivalence of two 64-bit multiplier/divider circuits is out of reach for SAT); the same operators are decided at full width with power-of-two literal divisors / literal factors in the other harnesses" if narrow else ""))
         out.append("/// O: result equals the reference interpreter of the documented postfix language (64-bit wrapping, unsigned / and %, @ power-of-two rule, failures -> None); no panic")
         out.append("#[kani::proof]")
         out.append("#[kani::unwind(40)]")
         out.append(f"fn {hn}() {{")
         out.append("    let mut w = W::any();")
         out.append("    let cfa: Option<u64> = kani::any();")
+        if narrow:
+            out.append("    // hard arithmetic (see gen/c06_programs.py::is_hard): every symbolic source is narrowed to 12 bits")
+            out.append("    kani::assume(w.rax.map_or(true, |v| v < 4096));")
+            out.append("    kani::assume(w.rbx.map_or(true, |v| v < 4096));")
+            out.append("    kani::assume(cfa.map_or(true, |v| v < 4096));")
+            out.append("    kani::assume(w.v0 < 4096 && w.v1 < 4096);")
         for p in grp:
             toks = tokens_of(p)
             codes = ", ".join(TOK[t] for t in toks)
